@@ -17,7 +17,7 @@ VERIF = os.path.dirname(os.path.abspath(__file__))
 REPO = os.environ.get("FINDUTILS_REPO", "/repo")
 CACHE = os.environ.get("FINDUTILS_VERIF_CACHE", "/root/.cache/findutils-verif")
 HARNESS_DIR = os.path.join(VERIF, "harness")
-EVIDENCE_DIR = os.path.join(VERIF, "evidence")
+EVIDENCE_DIR = os.environ.get("VERIF_EVIDENCE_DIR") or os.path.join(VERIF, "evidence")      # seeded runs point this elsewhere: what they write is not evidence
 REPLAY_DIR = os.path.join(VERIF, "replays")
 KF_FILE = os.path.join(VERIF, "known_findings.json")
 
@@ -690,6 +690,13 @@ def run_check(prop, tier, only=None, jobs=None, seed=0):
 
 def replay(path):
     w = json.load(open(path))
+    if w.get("harness_name") == "mirsym":
+        # a witness of the MIR-level engine: the concrete input is in the file; replay it against the real binaries (the solver run is the property's check itself)
+        h = {"name": "mirsym", "full": "mirsym", "meta": {"replay": [w.get("replayer", "")]}}
+        print("mirsym witness for %s: %s" % (w.get("property"), str(w.get("failing", w.get("summary", "")))[:300]))
+        reproduced, rdetail = native_replay(h, w)
+        print("native replay of recorded witness: reproduced=%s (%s)" % (reproduced, rdetail))
+        return 1 if reproduced else 0
     hs = discover()
     h = hs[w["harness_name"]]
     if "parent" in h:
